@@ -699,10 +699,11 @@ func generateTables(source *syntax.Model, out *grammar.Grammar, opts genOptions,
 func addTypes(vars *grammar.ActionVars, syms []grammar.Symbol) {
 	vars.Types = make(map[int]string)
 	for _, ref := range vars.CmdArgs.ArgRefs {
-		if ref.Symbol < len(syms) {
+		if ref.Symbol >= 0 && ref.Symbol < len(syms) {
 			vars.Types[ref.Pos] = syms[ref.Symbol].Type
 		} else {
-			// No types for extracted commands.
+			// No types for extracted commands, or for lists nested in a list element (their symbol
+			// is not known at this point).
 			vars.Types[ref.Pos] = ""
 		}
 	}
